@@ -24,6 +24,9 @@ import (
 type C10Case struct {
 	Trx ref.Directive `json:"trx"` // a transaction with Accrual set
 	CLI bool          `json:"cli,omitempty"`
+	// Before: other accrued transactions processed earlier in the same run (library: expanded first in the same
+	// process; CLI: in the same journal) - state must not leak from one expansion into another
+	Before []ref.Directive `json:"before,omitempty"`
 }
 
 func init() { Register("C10", "accrual", checkC10) }
@@ -64,7 +67,19 @@ func expandWithKnut(c C10Case) (txs [][]leg, err error, panicked any) {
 	}
 	var res []*transaction.Transaction
 	panicked = Guard("C10", "accrual", c, 30*time.Second, func() {
-		res, err = transaction.Create(registry.New(), &trx)
+		reg := registry.New()
+		for _, b := range c.Before {
+			bp := parser.New(b.Render(), "mem.knut")
+			if bp.Advance() != nil {
+				continue
+			}
+			if bf, e := bp.ParseFile(); e == nil && len(bf.Directives) == 1 {
+				if bt, ok := bf.Directives[0].Directive.(directives.Transaction); ok {
+					transaction.Create(reg, &bt)
+				}
+			}
+		}
+		res, err = transaction.Create(reg, &trx)
 	})
 	if panicked != nil || err != nil {
 		return nil, err, panicked
@@ -95,6 +110,25 @@ func expandWithCLI(c C10Case) (txs [][]leg, v *Violation) {
 	for _, a := range sortedKeys(accs) {
 		fmt.Fprintf(&sb, "%s open %s\n", first-1, a)
 	}
+	for _, b := range c.Before {
+		for _, bk := range b.Bookings {
+			accs[bk.Credit], accs[bk.Debit] = true, true
+		}
+		accs[b.Accrual.Account] = true
+		if b.Accrual.Start < first {
+			first = b.Accrual.Start
+		}
+		if b.Date < first {
+			first = b.Date
+		}
+	}
+	sb.Reset()
+	for _, a := range sortedKeys(accs) {
+		fmt.Fprintf(&sb, "%s open %s\n", first-1, a)
+	}
+	for _, b := range c.Before {
+		sb.WriteString(b.Render())
+	}
 	sb.WriteString(d.Render())
 	dir, cleanup := knutio.Materialise(map[string]string{"j.knut": sb.String()})
 	defer cleanup()
@@ -107,7 +141,7 @@ func expandWithCLI(c C10Case) (txs [][]leg, v *Violation) {
 		return nil, V("cli-unreadable", "printed journal not readable: %v\n%s", err, clip(r.Stdout, 1500))
 	}
 	for _, pd := range ds {
-		if pd.Kind != ref.KTrx {
+		if pd.Kind != ref.KTrx || !strings.HasPrefix(pd.Desc, d.Desc) {
 			continue
 		}
 		var legs []leg
@@ -318,7 +352,29 @@ func drawC10(t *rapid.T, cli bool) C10Case {
 		d.HasPerf = true
 		d.Perf = []string{"CHF"}
 	}
-	return C10Case{Trx: d, CLI: cli}
+	c := C10Case{Trx: d, CLI: cli}
+	if rapid.IntRange(0, 2).Draw(t, "hasBefore") == 0 {
+		n := rapid.IntRange(1, 2).Draw(t, "nBefore")
+		for i := 0; i < n; i++ {
+			b := ref.Directive{Kind: ref.KTrx, Date: d.Date, Desc: fmt.Sprintf("other%d", i),
+				Bookings: []ref.Booking{{Credit: rapid.SampledFrom(pool).Draw(t, "bcr"), Debit: rapid.SampledFrom(pool).Draw(t, "bdr"), Qty: gen.DrawQty(t, 2, false), Com: "CHF"}}}
+			acc := *d.Accrual
+			b.Accrual = &acc
+			if rapid.IntRange(0, 3).Draw(t, "sameWindowOtherInterval") != 0 {
+				// same window, another interval
+				for _, cand := range []string{"monthly", "quarterly", "weekly", "daily"} {
+					if cand != d.Accrual.Interval && !(cand == "daily" && acc.End-acc.Start > 100) {
+						b.Accrual.Interval = cand
+						break
+					}
+				}
+			} else {
+				b.Accrual.Start += ref.Day(rapid.IntRange(-40, 0).Draw(t, "bStartOff"))
+			}
+			c.Before = append(c.Before, b)
+		}
+	}
+	return c
 }
 
 func TestC10(t *testing.T) {
